@@ -370,7 +370,7 @@ func (w *worker) group(s *snapshot, filter *vnode.Node, mr methodRef, actorIdx i
 	}
 	toks := tokenSelsFor(mr.C, m.Name)
 	full[na], full[na+1] = len(amountSels), len(toks)
-	dims[na], dims[na+1] = len(w.b.Amounts), w.b.NTokens
+	dims[na], dims[na+1] = len(w.b.Amounts), nTokensFor(mr.C, m.Name, w.b.NTokens)
 	tierDims := append([]int{}, dims...)
 	for i := range dims {
 		if dims[i] != full[i] {
@@ -745,7 +745,7 @@ func (w *worker) depth2(s *snapshot, filter *vnode.Node) {
 			}
 		}
 		toks := tokenSelsFor(mr.C, m.Name)
-		dims[na], dims[na+1] = len(qb.Amounts), qb.NTokens
+		dims[na], dims[na+1] = len(qb.Amounts), nTokensFor(mr.C, m.Name, qb.NTokens)
 		for product(dims) > 512 {
 			shrink(dims)
 		}
